@@ -1072,6 +1072,18 @@ func (x *Exec) enterLoop(fr *Frame, li *LoopInfo, cur *State) {
 			cur.H[k] = nw
 		}
 	}
+	// 2b. loop frame: a function with a declared frame keeps every location outside it unchanged at
+	// every loop head (checked on entry and on the back edges as inv.k.frame, assumed here)
+	if x.loopFrameApplies(fr) {
+		fenv := x.entryEnv(fr, &fr.entry)
+		for _, fg := range x.frameGoals(fr, fenv, &entryState) {
+			o := x.vc.oblige(fmt.Sprintf("inv.%d.frame.init", li.Ordinal), Implies(entryState.Reach, fg.goal), pos, fmt.Sprintf("loop %d is entered with only the declared frame modified: component %s", li.Ordinal, fg.comp))
+			o.Clause = "modifies (component " + fg.comp + ")"
+		}
+		for _, fg := range x.frameGoals(fr, fenv, cur) {
+			x.vc.assume(Implies(cur.Reach, fg.goal))
+		}
+	}
 	// 3. assume invariants (derived counting-loop facts first; they are checked on the back edges like the rest)
 	if fr.autoInv == nil {
 		fr.autoInv = map[*LoopInfo][]*autoInv{}
@@ -1166,6 +1178,11 @@ func (x *Exec) loopStoreRoots(fr *Frame, li *LoopInfo, comp string) ([]*Term, []
 			case *ssa.Call:
 				mc := x.calleeModSet(fr, i.Common())
 				if mc.all || prefixMatches(comp, mc.prefixes) {
+					// a callee that writes only fields of an object allocated inside this loop
+					// (modifies p.f with p bound to a loop-fresh value) leaves older objects alone
+					if !mc.all && x.callWritesOnlyLoopFresh(fr, li, i.Common(), comp) {
+						continue
+					}
 					return nil, nil, false
 				}
 			case *ssa.MapUpdate:
@@ -1188,6 +1205,108 @@ func (x *Exec) loopStoreRoots(fr *Frame, li *LoopInfo, comp string) ([]*Term, []
 		}
 	}
 	return roots, ranges, true
+}
+
+// callWritesOnlyLoopFresh: the static callee has a contract, each of its modifies designators that
+// touches comp is a field path rooted at a parameter, and the actual for that parameter is a pointer
+// created inside the loop body (heap Alloc, or the result of a call whose contract ensures
+// fresh(result)). Such writes are covered by the "objects allocated inside the loop" clause.
+func (x *Exec) callWritesOnlyLoopFresh(fr *Frame, li *LoopInfo, c *ssa.CallCommon, comp string) bool {
+	callee := c.StaticCallee()
+	if callee == nil {
+		return false
+	}
+	fc, _ := x.vc.uni.contractFor(callee)
+	if fc == nil || fc.ModAll || fc.Inline {
+		return false
+	}
+	ptypes := map[string]types.Type{}
+	pidx := map[string]int{}
+	for k, p := range callee.Params {
+		ptypes[p.Name()] = p.Type()
+		pidx[p.Name()] = k
+	}
+	for _, me := range fc.Modifies {
+		pre, ok := staticCEPrefix(me, ptypes)
+		if !ok {
+			return false
+		}
+		if !(comp == pre || strings.HasPrefix(comp, pre+".") || strings.HasPrefix(pre, comp+".")) {
+			continue
+		}
+		root := me
+		for root.Kind == "field" && len(root.Args) > 0 {
+			root = root.Args[0]
+		}
+		if root.Kind != "id" || me.Kind != "field" {
+			return false
+		}
+		k, ok := pidx[root.Name]
+		if !ok || k >= len(c.Args) {
+			return false
+		}
+		if !x.loopFreshValue(li, c.Args[k]) {
+			return false
+		}
+	}
+	return true
+}
+
+func (x *Exec) loopFreshValue(li *LoopInfo, v ssa.Value) bool {
+	ins, ok := v.(ssa.Instruction)
+	if !ok || !li.Body[ins.Block()] {
+		return false
+	}
+	switch i := v.(type) {
+	case *ssa.Alloc:
+		return i.Heap
+	case *ssa.Call:
+		callee := i.Common().StaticCallee()
+		if callee == nil {
+			return false
+		}
+		fc, _ := x.vc.uni.contractFor(callee)
+		if fc == nil {
+			return false
+		}
+		for _, en := range fc.Ensures {
+			if ceMentionsFreshResult(en.Expr) {
+				return true
+			}
+		}
+	}
+	return false
+}
+
+// fresh(result) as a top-level conjunct of an unconditional postcondition
+func ceMentionsFreshResult(e *CE) bool {
+	if e == nil {
+		return false
+	}
+	if e.Kind == "bin" && e.Name == "&&" || e.Kind == "&&" {
+		for _, a := range e.Args {
+			if ceMentionsFreshResult(a) {
+				return true
+			}
+		}
+		return false
+	}
+	if e.Kind == "call" && e.Name == "fresh" && len(e.Args) == 1 && e.Args[0].Kind == "id" && e.Args[0].Name == "result" {
+		return true
+	}
+	return false
+}
+
+// loopFrameApplies: the function under verification declares a frame (no "modifies *", not a package
+// initialiser), so "nothing outside the frame changed since entry" is an invariant of each of its loops.
+func (x *Exec) loopFrameApplies(fr *Frame) bool {
+	if fr != fr.top || fr.fc == nil || fr.fc.ModAll {
+		return false
+	}
+	if fr.fn.Name() == "init" && fr.fn.Synthetic != "" {
+		return false
+	}
+	return true
 }
 
 // rootValue walks an address expression to the SSA value providing the root reference.
@@ -1283,6 +1402,13 @@ func (x *Exec) closeLoop(fr *Frame, li *LoopInfo, from *ssa.BasicBlock, st *Stat
 	for _, a := range fr.autoInv[li] {
 		o := x.vc.oblige(fmt.Sprintf("inv.%d.auto", li.Ordinal), Implies(st.Reach, a.term(x, fr, st)), pos, fmt.Sprintf("loop %d %s", li.Ordinal, a.describe()))
 		o.Clause = a.describe()
+	}
+	if x.loopFrameApplies(fr) {
+		fenv := x.entryEnv(fr, &fr.entry)
+		for _, fg := range x.frameGoals(fr, fenv, st) {
+			o := x.vc.oblige(fmt.Sprintf("inv.%d.frame", li.Ordinal), Implies(st.Reach, fg.goal), pos, fmt.Sprintf("loop %d body modifies only the declared frame: component %s", li.Ordinal, fg.comp))
+			o.Clause = "modifies (component " + fg.comp + ")"
+		}
 	}
 	for k, inv := range spec.Invariants {
 		env := x.loopEnv(fr, li, st).asGoal()
